@@ -9,6 +9,10 @@ Driver for C02.  `geomv_c02 judge` reads lines carrying the implementation's ans
   pt <tag> <xhex> <yhex> <polygonal>   => <digit>    one float point (exact dyadic value is judged)
   hist <flav> <lo> <hi> <P1> | <P2>    => <d1> <d2> <d3>  one polygon object: query as P1, changed in place to P2, back to P1
   recv <tag> <geom> | <polygonal>      => <digit>    MultiPoint/LineString/MultiLineString/Polygon.Within
+  cc <tag> <rounds> <sub> <lo> <hi> <P1> | <lo> <hi> <P2> | …  => <a1> <a2> …
+       concurrent callers: part k (polygonal `Pk` with the first ring of every polygon subdivided, own grid) was
+       asked <rounds> times by its own goroutine while the other parts were asked by theirs; `ak` is the digit
+       string of the first round, or `first/other` when a later round differed
 
 and prints one verdict per line: `OK <class>`, `DIFF <class> <why>` (implementation ≠ model),
 `SPEC <class> <why>` (the implementation's answer violates Spec.lean).
@@ -161,6 +165,58 @@ def judgeHist (flav : String) (lo hi : Int) (p1 p2 : Polygonal) (rhs : Tok) : St
     | [] => s!"OK hist-{flav}-{shape p1}"
   | _ => s!"SPEC hist-{flav} implementation-{" ".intercalate rhs}"
 
+/-- every edge of the ring (cyclically: the edge from the last vertex back to the first included) cut into
+`sub` equal pieces — how the harness builds the long first rings of `cc` lines (mirrors `subdivide` in
+harness/cmd/c02/main.go; the line carries the short ring) -/
+def subdivide (sub : Nat) (ring : List (Pt Rat)) : List (Pt Rat) :=
+  if sub ≤ 1 then ring else
+  match ring with
+  | [] => []
+  | v0 :: rest =>
+    (ring.zip (rest ++ [v0])).flatMap fun (a, b) =>
+      (List.range sub).map fun (k : Nat) =>
+        (⟨a.x + (b.x - a.x) * mkRat (Int.ofNat k) sub, a.y + (b.y - a.y) * mkRat (Int.ofNat k) sub⟩ : Pt Rat)
+
+def subdividePolygon (sub : Nat) : List (List (Pt Rat)) → List (List (Pt Rat))
+  | r0 :: rest => subdivide sub r0 :: rest
+  | [] => []
+
+def subdividePolygonal (sub : Nat) : Polygonal → Polygonal
+  | .polygon p => .polygon (subdividePolygon sub p)
+  | .multiPolygon ps => .multiPolygon (ps.map (subdividePolygon sub))
+  | b => b
+
+/-- split a token list at the `|` tokens -/
+def splitBars (t : Tok) : List Tok :=
+  let (cur, acc) := t.foldl (fun (st : Tok × List Tok) x =>
+    if x = "|" then ([], st.1.reverse :: st.2) else (x :: st.1, st.2)) ([], [])
+  (cur.reverse :: acc).reverse
+
+/-- concurrent callers: every answer string of every part (the first round's, and a later round's if it
+differed) is held against the Spec for that part's polygon — `Point.Within` is a function of its arguments,
+whatever other goroutines ask at the same time -/
+def judgeCC (tag : String) (sub : Nat) (parts : List Tok) (rhs : Tok) : String :=
+  if let some v := stability s!"cc-{tag}" rhs then v else
+  if parts.length ≠ rhs.length then s!"SPEC cc-{tag} implementation-{" ".intercalate rhs}" else
+  let verdicts := (parts.zip rhs).zipIdx.map fun ((part, ans), k) =>
+    match part with
+    | lo :: hi :: gt =>
+      match parseInt lo, parseInt hi, Proto.pGeom 4 gt with
+      | some lo, some hi, some (g, _) =>
+        match polygonalOf g with
+        | some pg =>
+          let pg := subdividePolygonal sub pg
+          let vs := (ans.splitOn "/").map fun d => judgeGrid s!"cc-{tag}-part{k}" lo hi 0 pg [d]
+          match vs.filter (fun v => !v.startsWith "OK") with
+          | v :: _ => if vs.length > 1 then v ++ " answers-differ-between-rounds-under-concurrent-callers" else v ++ " under-concurrent-callers"
+          | [] => if vs.length > 1 then s!"SPEC cc-{tag}-part{k} answers-differ-between-rounds" else s!"OK cc-{tag}-{shape pg}"
+        | none => "OK skipped-nonfinite"
+      | _, _, _ => "BAD parse"
+    | _ => "BAD parse"
+  match verdicts.filter (fun v => !v.startsWith "OK") with
+  | v :: _ => v
+  | [] => verdicts.headD "BAD parse"
+
 def judgeLine (line : String) : String :=
   let (lhs, rhs) := splitArrow (tokens line)
   match lhs with
@@ -194,6 +250,10 @@ def judgeLine (line : String) : String :=
       | some p, some pg => judgePt tag p pg rhs
       | _, _ => "OK skipped-nonfinite"
     | _, _, _ => "BAD parse"
+  | "cc" :: tag :: _rounds :: sub :: rest =>
+    match sub.toNat? with
+    | some sub => judgeCC tag sub (splitBars rest) rhs
+    | none => "BAD parse"
   | "recv" :: tag :: rest =>
     let gt := rest.takeWhile (· ≠ "|")
     let pt := rest.drop (gt.length + 1)
